@@ -1,4 +1,4 @@
-import BppProofs.Lemmas.NumDerivCaller
+import BppProofs.Lemmas.NumDerivRaise
 /-!
 # C12 — numerical derivatives are transparent and exact on low-degree polynomials
 
@@ -387,17 +387,20 @@ theorem three_point_stored_exact (f : List ℝ → ℝ) (w : W ℝ) (params : PL
 
 /-! ## 5. Next to a constraint: one-sided probes instead of raising -/
 
-/-- `one_sided_no_raise`: the two-point wrapper, and the three-point wrapper without cross
-derivatives, raise exactly when the wrapped function itself refuses the requested values — never
-because a probe ran into a constraint (the probe is retried on the other side, then with halved
-steps; after ten refusals the NaN marker is stored and the previous parameter is reset).
+/-- `one_sided_no_raise`: the two-point and five-point wrappers, and the three-point wrapper
+without cross derivatives, raise exactly when the wrapped function itself refuses the requested
+values — never because a probe ran into a constraint (two- and three-point: the probe is retried on
+the other side, then with halved steps, after ten refusals the NaN marker is stored and the
+previous parameter is reset; five-point: backward, then forward one-sided formulas, and — repaired,
+the ConstraintException of the forward branch used to escape — the NaN marker with the previous
+parameter reset when neither side has room).
 Hypotheses besides those of `transparent`: the wrapped function is at a feasible point, the
 selection has no duplicate and only names of the wrapped function, the step is not 0.
-(The five-point scheme and the cross-derivative block do let a ConstraintException / Exception
-escape: findings C12-5pt-raise-leaves-probe and C12-3pt-cross-limit-leaves-probe.) -/
+(The cross-derivative block of the three-point scheme does throw a plain Exception at a limit; see
+`transparent_on_raise`.) -/
 theorem one_sided_no_raise (f : List ℝ → ℝ) (w : W ℝ) (e : Entry ℝ) (hown : Own w.fn) (hok : w.fn.OK f)
     (hfeas : Feas w.fn.params) (hlog : ∀ pt ∈ w.fn.log, PtOK w.fn.params pt) (he : e.Nodup)
-    (hscheme : w.scheme = .two ∨ (w.scheme = .three ∧ w.cx = false))
+    (hscheme : w.scheme = .two ∨ w.scheme = .five ∨ (w.scheme = .three ∧ w.cx = false))
     (hvars : w.vars.Nodup) (hin : ∀ v ∈ w.vars, v ∈ names w.fn.params) (hh : w.h ≠ 0) :
     (w.call f e).2.1 = (w.fn.forward f e).2.1 := by
   have hinv : Inv f w.fn.params w.fn := ⟨Skel.refl _, hok, hfeas, hlog⟩
@@ -416,14 +419,118 @@ theorem one_sided_no_raise (f : List ℝ → ℝ) (w : W ℝ) (e : Entry ℝ) (h
     have hin1 : ∀ v ∈ w.vars, v ∈ names fn1.params := by
       intro v hv; rw [hfi.skel.names]; exact hin v hv
     unfold W.update
-    rcases hscheme with hs | ⟨hs, hcx⟩
+    rcases hscheme with hs | hs | ⟨hs, hcx⟩
     · have := update2_noexc f ({ w with fn := fn1 } : W ℝ) pl o1 o2 hfi.feas hsy hnd hvars hin1 hh
+      simp only [hs] at this ⊢
+      exact this
+    · have := update5_noexc f ({ w with fn := fn1 } : W ℝ) pl o1 o2 hfi.feas hsy hnd hvars hin1
       simp only [hs] at this ⊢
       exact this
     · have := update3_noexc f ({ w with fn := fn1 } : W ℝ) pl o1 o2 hfi.feas hsy hnd hvars hin1 hh hcx
       simp only [hs] at this ⊢
       exact this
 
+/-- `transparent_on_raise`: with a well-formed selection (no duplicate, only names of the wrapped
+function, arrays sized by `setParametersToDerivate`) and a step ≠ 0, an entry point whose forwarded
+call was accepted raises only in the three-point scheme with cross derivatives switched on, with
+the plain Exception "Could not compute cross derivatives at limit" — and (repaired: the wrapped
+function used to stay at a probe point with its analytical derivatives off) the wrapped function
+is then at the requested vector, wrapper and wrapped function report the value there, and the
+analytical derivatives of the wrapped function are switched as the wrapper's flags say.  The
+hypotheses of `transparent` hold again. -/
+theorem transparent_on_raise (f : List ℝ → ℝ) (w : W ℝ) (e : Entry ℝ) (hown : Own w.fn) (hok : w.fn.OK f)
+    (hfeas : Feas w.fn.params) (hlog : ∀ pt ∈ w.fn.log, PtOK w.fn.params pt) (he : e.Nodup)
+    (hvars : w.vars.Nodup) (hin : ∀ v ∈ w.vars, v ∈ names w.fn.params) (hh : w.h ≠ 0)
+    (hl2 : w.der2.length = w.vars.length)
+    (hfw : (w.fn.forward f e).2.1 = none) (x : Exc) (hraise : (w.call f e).2.1 = some x) :
+    x = .bpp ∧ w.scheme = .three ∧ w.cx = true ∧
+    (w.call f e).1.fn.params = e.apply w.fn.params ∧
+    (w.call f e).1.value = f (values (e.apply w.fn.params)) ∧
+    (w.call f e).1.fn.fval = f (values (e.apply w.fn.params)) ∧
+    Own (w.call f e).1.fn ∧ (w.call f e).1.fn.OK f ∧
+    (w.fn.kind ≥ 1 → (w.call f e).1.fn.en1 = w.c1) ∧ (w.fn.kind ≥ 2 → (w.call f e).1.fn.en2 = w.c2) :=
+  call_raise_spec f w e hown hok w.fn.params ⟨Skel.refl _, hok, hfeas, hlog⟩ he hvars hin hh hl2 hfw x hraise
+
+/-- `transparent`, for every call: whether the entry point returns or raises, afterwards the
+wrapped function is either untouched (its own setter refused the requested values) or at the
+requested vector, with wrapper and wrapped function reporting the value there -/
+theorem transparent_every_call (f : List ℝ → ℝ) (w : W ℝ) (e : Entry ℝ) (hown : Own w.fn) (hok : w.fn.OK f)
+    (hfeas : Feas w.fn.params) (hlog : ∀ pt ∈ w.fn.log, PtOK w.fn.params pt) (he : e.Nodup)
+    (hvars : w.vars.Nodup) (hin : ∀ v ∈ w.vars, v ∈ names w.fn.params) (hh : w.h ≠ 0)
+    (hl2 : w.der2.length = w.vars.length) :
+    ((w.fn.forward f e).2.1 ≠ none ∧ (w.call f e).1 = w ∧ (w.call f e).2.1 = (w.fn.forward f e).2.1) ∨
+    ((w.fn.forward f e).2.1 = none ∧
+      (w.call f e).1.fn.params = e.apply w.fn.params ∧
+      (w.call f e).1.value = f (values (e.apply w.fn.params)) ∧
+      (w.call f e).1.fn.fval = f (values (e.apply w.fn.params))) := by
+  by_cases hfw : (w.fn.forward f e).2.1 = none
+  · right
+    cases hc : (w.call f e).2.1 with
+    | none =>
+      obtain ⟨a, b, c, _, _⟩ := transparent f w e hown hok he hc
+      exact ⟨hfw, a, b, c⟩
+    | some x =>
+      obtain ⟨_, _, _, a, b, c, _⟩ := transparent_on_raise f w e hown hok hfeas hlog he hvars hin hh hl2 hfw x hc
+      exact ⟨hfw, a, b, c⟩
+  · left
+    obtain ⟨a, b⟩ := raise_unchanged f w e hown he hfw
+    exact ⟨hfw, a, b⟩
+
+theorem runCalls_shape (f : List ℝ → ℝ) : ∀ (es : List (Entry ℝ)) (w : W ℝ), Shape w (runCalls f w es) := by
+  intro es
+  induction es with
+  | nil => intro w; exact Shape.refl w
+  | cons e es ih => intro w; exact Shape.trans (call_shape f w e) (ih _)
+
+/-- … and after every history of calls, each returning or raising: the hypotheses of
+`transparent_every_call` are invariants of the wrapper (the selection, the step and the sizes of
+the arrays are never touched by an entry point; feasibility and consistency of the wrapped function
+are kept by every path, raising ones included) -/
+theorem transparent_every_call_history (f : List ℝ → ℝ) (w : W ℝ) (es : List (Entry ℝ)) (e : Entry ℝ)
+    (hown : Own w.fn) (hok : w.fn.OK f) (hfeas : Feas w.fn.params) (hlog : ∀ pt ∈ w.fn.log, PtOK w.fn.params pt)
+    (he : e.Nodup) (hvars : w.vars.Nodup) (hin : ∀ v ∈ w.vars, v ∈ names w.fn.params) (hh : w.h ≠ 0)
+    (hl2 : w.der2.length = w.vars.length) :
+    (((runCalls f w es).fn.forward f e).2.1 ≠ none ∧ ((runCalls f w es).call f e).1 = runCalls f w es) ∨
+    (((runCalls f w es).fn.forward f e).2.1 = none ∧
+      ((runCalls f w es).call f e).1.fn.params = e.apply (runCalls f w es).fn.params ∧
+      ((runCalls f w es).call f e).1.value = f (values (e.apply (runCalls f w es).fn.params)) ∧
+      ((runCalls f w es).call f e).1.fn.fval = f (values (e.apply (runCalls f w es).fn.params))) := by
+  have h0 : Inv f w.fn.params w.fn := ⟨Skel.refl _, hok, hfeas, hlog⟩
+  have h1 := runCalls_inv f w.fn.params es w h0
+  obtain ⟨⟨_, _, _, _, sv, sh⟩, _, sd2⟩ := runCalls_shape f es w
+  have hown' := h1.own hown.1 hown.2
+  have hvars' : (runCalls f w es).vars.Nodup := by rw [sv]; exact hvars
+  have hin' : ∀ v ∈ (runCalls f w es).vars, v ∈ names (runCalls f w es).fn.params := by
+    rw [sv, h1.skel.names]; exact hin
+  have hh' : (runCalls f w es).h ≠ 0 := by rw [sh]; exact hh
+  have hl2' : (runCalls f w es).der2.length = (runCalls f w es).vars.length := by rw [sd2, sv]; exact hl2
+  by_cases hfw : ((runCalls f w es).fn.forward f e).2.1 = none
+  · right
+    cases hc : ((runCalls f w es).call f e).2.1 with
+    | none =>
+      obtain ⟨a, b, c, _, _⟩ := transparent f (runCalls f w es) e hown' h1.ok he hc
+      exact ⟨hfw, a, b, c⟩
+    | some x =>
+      obtain ⟨_, _, _, a, b, c, _⟩ := call_raise_spec f (runCalls f w es) e hown' h1.ok w.fn.params h1 he hvars' hin' hh'
+        hl2' hfw x hc
+      exact ⟨hfw, a, b, c⟩
+  · left
+    exact ⟨hfw, (raise_unchanged f (runCalls f w es) e hown' he hfw).1⟩
+
+/-- the raising situation of `transparent_on_raise` exists: two selected variables, the second one
+passed on the upper bound of its constraint (corpus/C12/crosslimit.txt) -/
+example : ∃ (w : W ℝ) (f : List ℝ → ℝ) (e : Entry ℝ), Own w.fn ∧ w.fn.OK f ∧ Feas w.fn.params ∧ e.Nodup ∧
+    w.vars.Nodup ∧ (∀ v ∈ w.vars, v ∈ names w.fn.params) ∧ w.h ≠ 0 ∧ w.der2.length = w.vars.length ∧
+    w.scheme = .three ∧ w.cx = true :=
+  ⟨{ scheme := .three, h := 1 / 16, vars := [0, 1], der1 := [some 0, some 0], der2 := [some 0, some 0],
+     cross := [[some 0, some 0], [some 0, some 0]], c1 := true, c2 := true, cx := true, f1 := 0, f2 := 0, f3 := 0,
+     fn := { params := [⟨0, 1, 0, none⟩, ⟨1, 2, 0, none⟩], fval := 3, log := [], kind := 0, en1 := false, en2 := false,
+             pt1 := [], pt2 := [] } },
+   fun l => l.sum, .setParameters [⟨0, 3 / 2, 0, none⟩, ⟨1, 3, 0, some ⟨some 0, some 3, true, true⟩⟩],
+   ⟨by simp [names], by intro p hp; simp at hp; rcases hp with rfl | rfl <;> rfl⟩,
+   by simp [Fn.OK, values]; norm_num,
+   by intro p hp; simp at hp; rcases hp with rfl | rfl <;> rfl,
+   by simp [Entry.Nodup, names], by simp, by simp [names], by norm_num, rfl, rfl, rfl⟩
 
 /-! ## 6. Delegation of the variables that are not selected -/
 
